@@ -17,7 +17,159 @@ HISTORIES = (("dim",), ("dim", "dim"), ("atoms", "cell", "dim", "dim"), ("len", 
 
 
 def shards(tier, seed):
-    return [("e2e", ch, NCHUNK[tier]) for ch in range(NCHUNK[tier])]
+    out = [("e2e", ch, NCHUNK[tier]) for ch in range(NCHUNK[tier])]
+    out += [("seam", k, sp, pb) for k in ((2, 3) if tier == "quick" else (2, 3, 4)) for sp in (2.94, 3.24, 3.54) for pb in (True, False)]
+    out += [("hist", h) for h in range(len(history_cases()))]
+    return out
+
+
+# ------------------------------------------------------------------ seam with real geometry
+def seam_shard(shard, tier, seed, res):
+    """The real _merge_clusters -> _localize_clusters -> _clean_clusters on real Cluster objects built over a real
+    lattice-gas structure (every overlapping ordered pair of index subsets as input clusters); every output cluster's
+    shortcut is compared with the public function."""
+    import itertools
+    import matid.geometry as g
+    from matid.clustering.sbc import SBC
+    from matid.clustering.cluster import Cluster
+    from ase.data import covalent_radii
+
+    _, k, spacing, periodic = shard
+    pbc = (periodic,) * 3
+    for sites, cols in families.lattice_gas((2, 2, 2), max_atoms=k, min_atoms=k):
+        if any(cols):
+            continue  # one species: the pipeline's species filter is C01's business
+        if tier == "quick" and k >= 3 and (0, 0, 0) not in sites:
+            continue  # quick tier: configurations containing the origin site
+        at = families.gas_atoms(sites, cols, (29, 8), spacing, (2, 2, 2), pbc)
+        if not periodic:
+            at.set_cell(np.zeros((3, 3)))
+        num = at.get_atomic_numbers()
+        subsets = [c for m in range(1, k + 1) for c in itertools.combinations(range(k), m)]
+        for rname in ("covalent", "custom"):
+            radii = covalent_radii[num] * (np.array([1.0, 1.06, 0.95, 1.03][:k]) if rname == "custom" else 1.0)
+            sysc = at.copy()
+            if periodic:
+                sysc.wrap()
+            dist = g.get_distances(sysc, radii)
+            for A, B in itertools.product(subsets, repeat=2):
+                if not set(A) & set(B) or A == B:
+                    continue
+                for mt in (0.0, 0.5):
+                    for bt in (0.65, 1.0):
+                        if rname == "custom" and (mt, bt) not in ((0.5, 0.65), (0.0, 1.0)):
+                            continue
+                        res.counters["states"] += 1
+                        res.counters["evaluations"] += 1
+                        res.counters["transitions"] += 3
+                        cl = [Cluster(list(x), {29}, None, system=sysc, distances=dist, radii=radii, bond_threshold=bt) for x in (A, B)]
+                        sb = SBC()
+                        try:
+                            out = sb._merge_clusters(sysc, cl, mt, dist, bt)
+                            out = sb._localize_clusters(sysc, out, 1, dist)
+                            out = sb._clean_clusters(out, bt)
+                        except Exception:
+                            continue  # C01's business
+                        for c in out:
+                            try:
+                                a, b = c.get_dimensionality(), c.get_dimensionality()
+                            except Exception as e:
+                                a = b = ("EXC", type(e).__name__)
+                            sub = c.get_atoms()
+                            ref = g.get_dimensionality(sub.copy(), bt, radii=np.asarray(radii)[c.indices].copy())
+                            res.outcomes["seam dim=%s merged=%s" % (ref, c._merged)] += 1
+                            if c._merged or len(c.indices) < len(set(A) | set(B)):
+                                res.counters["nontrivial_distinct"] += 1
+                            if a != ref or b != ref:
+                                case = {"kind": "seam", "sites": [list(x) for x in sites], "spacing": spacing, "periodic": periodic, "radii": rname, "A": list(A), "B": list(B), "mt": mt, "bt": bt}
+                                res.violation("c13.seam", {"case": short_hash(case)}, case,
+                                              "clusters %s and %s of a %d-atom lattice gas (spacing %g, %s, radii %s) through merge(threshold %g)/localize/clean with bond_threshold %g: "
+                                              "Cluster.get_dimensionality()=%r (repeat %r), function on the cluster atoms=%r" % (list(A), list(B), k, spacing, "periodic" if periodic else "finite", rname, mt, bt, a, b, ref))
+    res.sample({"kind": "seam", "atoms": k, "spacing": spacing, "periodic": periodic})
+
+
+# ------------------------------------------------------------------ histories on one SBC instance
+def history_cases():
+    return ["mutate:fcc-stretch", "mutate:slab-displace", "ABA:fcc100slab/graphene", "ABA:stack/fcc222", "mutate:gas-move"]
+
+
+def history_shard(shard, tier, seed, res):
+    """Sequences of get_clusters calls on ONE SBC instance (incl. the same Atoms object modified in place between calls);
+    every call's clusters and their dimensionality shortcuts are compared with a fresh SBC on a fresh copy."""
+    from ase.build import bulk
+    import ase.build
+    from matid.clustering.sbc import SBC
+    import matid.geometry as g
+
+    name = history_cases()[shard[1]]
+    base = {n: a for n, a, _ in families.f2_bases()}
+
+    def summary(clusters, bt=0.65):
+        out = []
+        for c in clusters:
+            out.append((tuple(sorted(int(i) for i in c.indices)), c.get_dimensionality()))
+        return sorted(out)
+
+    def fresh(at):
+        return summary(SBC().get_clusters(at.copy()))
+
+    seqs = []
+    if name == "mutate:fcc-stretch":
+        for pbc in ([True, True, False], [True, True, True], [False, False, False]):
+            at = bulk("Cu", "fcc", a=4.5, cubic=True) * (3, 3, 3)
+            ase.build.add_vacuum(at, 10)
+            at.set_pbc(pbc)
+
+            def mut(a):
+                c = np.array(a.get_cell())
+                c[2] *= 1.08
+                a.set_cell(c, scale_atoms=True)
+            seqs.append((at, mut))
+    elif name == "mutate:slab-displace":
+        at = base["fcc100slab.TTF"].copy()
+
+        def mut(a):
+            a.positions[a.positions[:, 2] > a.positions[:, 2].mean() + 0.5, 2] += 1.2
+        seqs.append((at, mut))
+    elif name == "mutate:gas-move":
+        at = families.gas_atoms([(0, 0, 0), (1, 0, 0), (0, 1, 0), (1, 1, 0)], [0, 0, 0, 0], (29, 8), 2.6, (2, 2, 2), (True, True, True))
+
+        def mut(a):
+            a.positions[3] += [0.9, 0.9, 1.3]
+        seqs.append((at, mut))
+    if name.startswith("mutate"):
+        for at, mut in seqs:
+            inst = SBC()
+            for step in range(3):
+                res.counters["states"] += 1
+                res.counters["evaluations"] += 1
+                res.counters["transitions"] += 1
+                got = summary(inst.get_clusters(at))
+                want = fresh(at)
+                res.outcomes["hist ncl=%d" % len(got)] += 1
+                if got != want:
+                    case = {"kind": "hist", "name": name, "step": step}
+                    res.violation("c13.history", {"name": name, "step": step, "pbc": str(at.get_pbc().tolist())}, dict(case, pbc=at.get_pbc().tolist()),
+                                  "%s: call %d on one SBC instance (same Atoms object modified in place between calls) gives clusters/dimensionalities %s, a fresh SBC on a copy gives %s" % (name, step, [(len(i), d) for i, d in got][:4], [(len(i), d) for i, d in want][:4]))
+                    break
+                mut(at)
+    else:
+        a, b = name.split(":")[1].split("/")
+        A = (base.get(a) if a in base else families.stack_base()).copy()
+        B = (base.get(b) if b in base else families.stack_base()).copy()
+        inst = SBC()
+        for step, at in enumerate((A, B, A, B)):
+            res.counters["states"] += 1
+            res.counters["evaluations"] += 1
+            res.counters["transitions"] += 1
+            got = summary(inst.get_clusters(at))
+            want = fresh(at)
+            if got != want:
+                res.violation("c13.history", {"name": name, "step": step}, {"kind": "hist", "name": name, "step": step},
+                              "%s: call %d on one SBC instance differs from a fresh SBC" % (name, step))
+                break
+    res.nontrivial.add("hist:" + name)
+    res.sample({"kind": "history", "name": name})
 
 
 def run_history(cluster, hist):
@@ -49,7 +201,7 @@ def check_structure(label, atoms, hint, tier, seed, res=None, only=None):
             continue
         params = _sbcfam.resolve_params(pr, atoms)
         ranks = _sbcfam.first_ranks(hint, n)
-        scripts = [()] + [(r,) for r in ranks[1:3]]
+        scripts = [()] + [(r,) for r in ranks[1:(2 if tier == "quick" else 3)]]
         if n <= 8:
             scripts = [()] + [(r,) for r in range(1, n)]
         if only is not None:
@@ -57,7 +209,7 @@ def check_structure(label, atoms, hint, tier, seed, res=None, only=None):
         for script in scripts:
             bt = params.get("bond_threshold", 0.65)
             for hi, hist in enumerate(HISTORIES):
-                if hi and (tier == "quick" and (k + len(script)) % 2):
+                if tier == "quick" and hi != 1 + (k + len(script)) % 2:
                     continue
                 try:
                     clusters, trace = sbc_harness.run_scripted(atoms, list(script), **params)
@@ -90,6 +242,12 @@ def check_structure(label, atoms, hint, tier, seed, res=None, only=None):
 
 def run_shard(shard, tier, seed):
     res = Result()
+    if shard[0] == "seam":
+        seam_shard(shard, tier, seed, res)
+        return res
+    if shard[0] == "hist":
+        history_shard(shard, tier, seed, res)
+        return res
     _, ch, nch = shard
     structs = _sbcfam.structure_list(tier, seed)
     for k in range(ch, len(structs), nch):
@@ -111,6 +269,15 @@ def run_shard(shard, tier, seed):
 
 
 def replay(case):
+    if case.get("kind") == "seam":
+        res = Result()
+        seam_shard(("seam", len(case["sites"]), case["spacing"], case["periodic"]), "thorough", 0, res)
+        c2 = {k: case[k] for k in ("kind", "sites", "spacing", "periodic", "radii", "A", "B", "mt", "bt")}
+        return [v for v in res.violations if v["signature"]["case"] == short_hash(c2)]
+    if case.get("kind") == "hist":
+        res = Result()
+        history_shard(("hist", history_cases().index(case["name"])), "thorough", 0, res)
+        return [v for v in res.violations if v["signature"]["step"] == case["step"] and v["signature"].get("pbc", str(case.get("pbc"))) == str(case.get("pbc"))]
     atoms = families.atoms_from_case(case["atoms"])
     viol = check_structure(case["label"], atoms, None, "thorough", case.get("seed", 0), None, only={"params": case["params"], "script": case["script"]})
     out = []
@@ -125,7 +292,10 @@ def describe(tier, seed):
     return {
         "rule": "every structure of the C01 families (F1 lattice gas, F2 single deviations of 6 crystals + two-slab stack, F3 molecules) x {default, bond_threshold 0.4/1.0, radii vdw/vdw_covalent/custom array} "
                 "x seed-choice scripts (default + defect-atom / neighbour first choices; all first choices for <=8 atoms) x call histories %s on fresh clusters; every returned value is compared with "
-                "get_dimensionality(cluster.get_atoms(), bond_threshold, radii=<per-atom radii used>). states = get_clusters executions, transitions = Cluster method calls" % (list(HISTORIES),),
+                "get_dimensionality(cluster.get_atoms(), bond_threshold, radii=<per-atom radii used>). Seam: the real merge/localize/clean pipeline on real Cluster objects over every one-species 2x2x2 lattice-gas configuration with 2-%d atoms "
+                "(3 spacings: bond gaps 0.30/0.60/0.90, periodic and finite, covalent and custom radii), every overlapping ordered pair of index subsets as input clusters, merge_threshold {0,0.5} x bond_threshold {0.65,1.0}. "
+                "Histories: %d sequences of get_clusters calls on ONE SBC instance, incl. the same Atoms object modified in place between calls, vs a fresh SBC on a copy. "
+                "states = get_clusters / pipeline executions, transitions = Cluster method calls / pipeline stages" % (list(HISTORIES), 3 if tier == "quick" else 4, len(history_cases())),
         "nontrivial_rule": "clusters whose final index set is a strict subset of the structure (atoms were dropped by merge / localize / clean or belong to another cluster)",
         "bounds": {"structures": len(structs), "param_sets": len(PARAMS), "histories": len(HISTORIES)},
         "assumptions": ["differential oracle only: the public get_dimensionality is the reference (its own correctness is C09)", "parameter variations on base structures and a fixed slice of the deviations in the quick tier"],
